@@ -335,6 +335,7 @@ pub fn run(tier: &str, prop: Prop) -> i32 {
     rep.sub("weights", "a mixed range (run, single, suited, offsuit, two leftovers) under pairs of weights from {1, 0.5, 0.25, 0.3, 0.1, 1/3, 1e-7, 0.99999994, 0, smallest subnormal, 0.7, 0.123456789}", nw, nw, false, json!({"weights": ws.iter().map(|w| format!("{:e}", w)).collect::<Vec<_>>()}));
     rep.bound("weights: -0.0, NaN, infinities and values above 1 are outside 'weights in [0,1]' and are not used");
 
+    failing_writer(&mut rep, prop);
     if prop == Prop::C06 {
         tokens_roundtrip(&mut rep);
     } else {
@@ -346,6 +347,138 @@ pub fn run(tier: &str, prop: Prop) -> i32 {
         rep.assume("leftover pocket combos may be written more than once (the repository's own test it_formats_incomplete_pocket_jacks pins 'JsJh,JsJd,JsJc,JsJh,...'); the leftover section is compared as a set");
     }
     rep.finish()
+}
+
+struct Limited {
+    remaining: usize,
+}
+impl std::fmt::Write for Limited {
+    fn write_str(&mut self, s: &str) -> std::fmt::Result {
+        if s.len() > self.remaining {
+            self.remaining = 0;
+            Err(std::fmt::Error)
+        } else {
+            self.remaining -= s.len();
+            Ok(())
+        }
+    }
+}
+
+/// environment deviation = the sink fails after k bytes. A failed write of one range must not
+/// change what any range prints afterwards on the same thread.
+fn failing_writer(rep: &mut Report, prop: Prop) {
+    use std::fmt::Write as _;
+    let texts = ["QQ+,AKs,AKo:0.5", "T7s+,77-55,A5s+:0.25,KdQd", "AsKs:0.5,AsQs", "22+:0.3", ""];
+    let ranges: Vec<Contents> = texts.iter().map(|t| contents_of(&t.parse::<HandRange>().unwrap())).collect();
+    let clean: Vec<String> = ranges.iter().map(|c| format_range(c).map(|x| x.0).unwrap_or_default()).collect();
+    let outs = par_map(ranges.len(), |a| {
+        let mut bad = vec![];
+        let mut n = 0u64;
+        let ra = range_of(&ranges[a]);
+        for k in 0..=clean[a].len() {
+            let r = catch(std::panic::AssertUnwindSafe(|| {
+                let mut sink = Limited { remaining: k };
+                let res = write!(sink, "{}", ra);
+                let mut after = vec![];
+                for b in 0..ranges.len() {
+                    after.push(range_of(&ranges[b]).to_string());
+                }
+                (res.is_err(), after)
+            }));
+            n += 1;
+            match r {
+                Err(e) => bad.push((a, k, json!({"panic": e}))),
+                Ok((_, after)) => {
+                    for b in 0..ranges.len() {
+                        if after[b] != clean[b] && bad.len() < 3 {
+                            bad.push((a, k, json!({"then_formatting": texts[b], "gives": after[b], "expected": clean[b]})));
+                        }
+                    }
+                }
+            }
+        }
+        (bad, n)
+    });
+    let mut n = 0u64;
+    for (bad, k) in outs {
+        n += k;
+        for (a, cut, o) in bad {
+            rep.violation(Violation {
+                key: format!("write {:?} to a sink failing after {} bytes, then format", texts[a], cut),
+                sub: "failing-writer".into(),
+                case: json!({"first": texts[a], "sink_capacity": cut}),
+                expected: json!(if prop == Prop::C06 { "every range still prints a text that parses back to itself" } else { "the text depends only on the contents" }),
+                observed: o,
+            });
+        }
+    }
+    rep.machine(n, n * ranges.len() as u64, n);
+    rep.sub("failing-writer", "history with an environment fault: one of five ranges is written to a sink that fails after k bytes, for EVERY k up to the length of its text; afterwards every range is formatted on the same thread and must print exactly what it printed before any fault", n, n, true, json!({"ranges": texts}));
+}
+
+/// complete rank pairs whose combos carry weights zero, one or two ulps apart, built into hash tables of
+/// different capacity and insertion order: the text must be the same (and canonical) for all builds
+fn near_equal_capacities(rep: &mut Report) {
+    let base = 0.5f32.to_bits();
+    let jobs: Vec<(RP, u64)> = vec![(RP::Suited(0, 1), 81), (RP::Pocket(5), 729), (RP::Suited(7, 9), 81)];
+    let mut n = 0u64;
+    let mut distinct = std::collections::BTreeSet::new();
+    for (rp, total) in jobs {
+        let combos = rp.combos();
+        let outs = par_map(total as usize, |code| {
+            let mut x = code as u64;
+            let items: Vec<(Combo, f32)> = combos.iter().map(|cb| {
+                let w = f32::from_bits(base + (x % 3) as u32);
+                x /= 3;
+                (*cb, w)
+            }).collect();
+            let contents: Contents = items.iter().map(|(c, w)| (*c, w.to_bits())).collect();
+            let its = items.clone();
+            let r = catch(move || {
+                let plain: HandRange = its.iter().map(|(c, w)| (c.card_pair(), *w)).collect();
+                let mut rev = its.clone();
+                rev.reverse();
+                let reversed: HandRange = rev.iter().map(|(c, w)| (c.card_pair(), *w)).collect();
+                // the same keys inserted many times first (large size hint, larger table), final values last
+                let mut padded_items: Vec<(Combo, f32)> = vec![];
+                for round in 0..16 {
+                    for (c, _) in &its {
+                        padded_items.push((*c, 0.125 + round as f32 / 64.0));
+                    }
+                }
+                padded_items.extend(its.iter().cloned());
+                let padded: HandRange = padded_items.iter().map(|(c, w)| (c.card_pair(), *w)).collect();
+                // beside other entries (another table size again)
+                let mut with_others: Vec<(Combo, f32)> = all_combos().into_iter().filter(|c| c.0 >= 40).map(|c| (c, 0.25)).collect();
+                with_others.extend(its.iter().cloned());
+                let crowded: HandRange = with_others.iter().map(|(c, w)| (c.card_pair(), *w)).collect();
+                let joined = its.iter().map(|(cb, w)| format!("{}{}", cb.text(), weight_suffix(w.to_bits()))).collect::<Vec<_>>().join(",");
+                let parsed: HandRange = joined.parse().unwrap();
+                (plain.to_string(), reversed.to_string(), padded.to_string(), parsed.to_string(), crowded.to_string(), contents_of(&crowded))
+            });
+            match r {
+                Err(e) => Some((contents, json!({"panic": e}))),
+                Ok((a, b, c, d, e, crowded_contents)) => {
+                    if !(a == b && a == c && a == d) {
+                        return Some((contents, json!({"problem": "equal contents built along different routes print differently", "collect": a, "collect_reversed": b, "collect_after_overwritten_duplicates": c, "parsed": d})));
+                    }
+                    if let Some(v) = check_canonical_text(&contents, &a) {
+                        return Some((contents, v));
+                    }
+                    check_canonical_text(&crowded_contents, &e).map(|v| (crowded_contents, v))
+                }
+            }
+        });
+        for o in outs {
+            n += 1;
+            if let Some((c, v)) = o {
+                record(rep, "near-equal-capacities", &c, WHAT17, v);
+            } else {
+                distinct.insert(n);
+            }
+        }
+    }
+    rep.sub("near-equal-capacities", "AKs, 99 and 7 5s with every assignment of three weights zero, one and two ulps apart to their combos (3^4, 3^6, 3^4), each built by collect(), collect() in reverse, collect() after sixteen rounds of overwritten duplicates (larger table), parsing, and collect() beside 66 other combos: identical and canonical text", n, distinct.len() as u64, true, json!({}));
 }
 
 const R: [Rank; 13] = RANKS;
@@ -408,13 +541,20 @@ fn tokens_roundtrip(rep: &mut Report) {
 }
 
 fn histories(rep: &mut Report, thorough: bool) {
+    histories_with(rep, thorough, 1.0, 0.5, true);
+    // the same search with two weights one ulp apart: "equal weight" is exact equality, and a tolerant
+    // comparison makes the result depend on the order in which the hash map is walked
+    histories_with(rep, thorough, 0.5, f32::from_bits(0.5f32.to_bits() + 1), false);
+}
+
+fn histories_with(rep: &mut Report, thorough: bool, wx: f32, wy: f32, big: bool) {
     // explicit-state search over insertion histories: text must be a function of the contents
     let c = |t: &str| -> Combo {
         let b = t.as_bytes();
         let f = |r: u8, s: u8| (RANK_CHARS.iter().position(|c| *c == r as char).unwrap() * 4 + SUIT_CHARS.iter().position(|c| *c == s as char).unwrap()) as u8;
         Combo::new(f(b[0], b[1]), f(b[2], b[3]))
     };
-    let alpha: Vec<(Combo, f32)> = ["AsKs", "AhKh", "AdKd", "AcKc", "AsQs", "AhQh", "KsKh", "2d2c"].iter().flat_map(|t| vec![(c(t), 1.0f32), (c(t), 0.5f32)]).collect();
+    let alpha: Vec<(Combo, f32)> = ["AsKs", "AhKh", "AdKd", "AcKc", "AsQs", "AhQh", "KsKh", "2d2c"].iter().flat_map(|t| vec![(c(t), wx), (c(t), wy)]).collect();
     let max_len = if thorough { 4 } else { 3 };
     let na = alpha.len();
     // sequences encoded as base-16 numbers with explicit length
@@ -500,8 +640,12 @@ fn histories(rep: &mut Report, thorough: bool) {
         }
     }
     rep.machine(states.len() as u64, transitions, seqs.len() as u64);
-    rep.sub("histories", &format!("explicit-state search over insertion histories: all sequences of length <= {} over 8 combos x 2 weights (the four AKs combos can complete a rank pair), each built by collect(), by collect() through a filter (no size hint), by parsing the joined text, and cloned; states = distinct contents; the text must be a function of the state and canonical", max_len), seqs.len() as u64, states.len() as u64, true, json!({"states": states.len(), "insertions": transitions}));
+    rep.sub(&format!("histories/weights-{}-{}", wx, wy), &format!("explicit-state search over insertion histories: all sequences of length <= {} over 8 combos x 2 weights (the four AKs combos can complete a rank pair), each built by collect(), by collect() through a filter (no size hint), by parsing the joined text, and cloned; states = distinct contents; the text must be a function of the state and canonical", max_len), seqs.len() as u64, states.len() as u64, true, json!({"states": states.len(), "insertions": transitions}));
 
+    if !big {
+        near_equal_capacities(rep);
+        return;
+    }
     // large ranges along very different histories (crossing every hash-map resize)
     let all = all_combos();
     let mut big = 0u64;
